@@ -142,6 +142,113 @@ def loopOverlapGen (keep ghost chk : Bool) (j fresh : Nat) (_F : Facts) : Block 
   | .cons s r, i+1 => (loopOverlapGen keep ghost chk j fresh _F r i).map fun r' => .cons s r'
   | .nil, _ => none
 
+/-! ### loops with carried data values (desugared by the converter: `q := cast x` in front of the loop, `p := cast q` at the
+head of the body, `q := cast y` at its end). The real pattern evaluates the copy in front of the loop with the block
+arguments replaced by the loop's init operands and the copy at the end of the body with the yield operands. -/
+
+def isCastOf : Stmt → Option (Var × Var)
+  | .pure d .cast [x] => some (d, x)
+  | _ => none
+
+/-- alias environment `(q, x)`: "q currently holds the value of x" — extended by `q := cast x`, pairs mentioning a redefined
+variable are dropped -/
+def aliasStep (s : Stmt) (A : List (Var × Var)) : List (Var × Var) :=
+  let ds := defsS s
+  let A' := A.filter (fun p => !ds.contains p.1 && !ds.contains p.2)
+  match isCastOf s with
+  | some (d, x) => if d = x then A' else (d, x) :: A'
+  | none => A'
+
+/-- number of trailing statements of `after` that are carry assignments `q := cast y` for a `q` read by one of the first `nh`
+statements `p := cast q` of `pre`; `nh` itself is the number of leading statements of `pre` of that shape -/
+def nHeads (pre after : List Stmt) : Nat :=
+  let tq := ((after.reverse.takeWhile (fun s => (isCastOf s).isSome)).filterMap isCastOf).map (·.1)
+  (pre.takeWhile (fun s => match isCastOf s with | some (_, q) => tq.contains q | none => false)).length
+
+def nTails (pre after : List Stmt) : Nat :=
+  let qs := ((pre.take (nHeads pre after)).filterMap isCastOf).map (·.2)
+  (after.reverse.takeWhile (fun s => match isCastOf s with | some (q, _) => qs.contains q | none => false)).length
+
+/-- `(p, q, y)`: the block argument `p` is read from the carry register `q`; its value in the next iteration is the yielded `y` -/
+def params1T (heads tails : List Stmt) : List (Var × Var × Var) :=
+  heads.filterMap (fun s => (isCastOf s).bind fun pq => ((tails.filterMap isCastOf).lookup pq.2).map fun y => (pq.1, pq.2, y))
+
+/-- `(p, q, x)`: the value of `p` in the first iteration is the loop's init operand `x` (`q := cast x` in front of the loop) -/
+def params0T (A : List (Var × Var)) (heads : List Stmt) : List (Var × Var × Var) :=
+  heads.filterMap (fun s => (isCastOf s).bind fun pq => (A.lookup pq.2).map fun x => (pq.1, pq.2, x))
+
+def dropMid (l : List (Var × Var × Var)) : List (Var × Var) := l.map fun t => (t.1, t.2.2)
+
+/-- side conditions of the carried variant of the theorem (decidable, evaluated on every real step), besides `loopSide`:
+every parameter `(p, q, src)` comes from a head `p := cast q` of `pre` whose carry register `q` is not defined in `pre`; at
+the end of the body `q := cast y` is among the trailing carry assignments, which are in SSA order and assign nothing the
+chain or the setup reads; in front of the loop `q` is known to hold `x`; every block argument read at the head is a
+parameter; sources are below `fresh`. -/
+def carrySide (A : List (Var × Var)) (fs : List (Field × Var)) (pre after : List Stmt) (iv : Var) (fresh : Nat) : Bool :=
+  let nh := nHeads pre after
+  let nt := nTails pre after
+  let heads := pre.take nh
+  let pre' := pre.drop nh
+  let tails := after.drop (after.length - nt)
+  let t0 := params0T A heads
+  let t1 := params1T heads tails
+  let predefs := pre.flatMap pureDef
+  tails.all isPure && pureSSA tails &&
+  t1.all (fun t => pre.any (fun s => isCastOf s == some (t.1, t.2.1)) && tails.any (fun s => isCastOf s == some (t.2.1, t.2.2)) &&
+    !predefs.contains t.2.1 && t.2.1 != iv && t.1 != iv && decide (t.2.2 < fresh) && !(tails.flatMap pureDef).contains t.2.2) &&
+  t0.all (fun t => pre.any (fun s => isCastOf s == some (t.1, t.2.1)) && A.lookup t.2.1 == some t.2.2 &&
+    !predefs.contains t.2.1 && t.2.1 != iv && t.1 != iv && decide (t.2.2 < fresh) && decide (t.2.1 < fresh)) &&
+  (heads.flatMap pureDef).all (fun p => ((dropMid t0).map (·.1)).contains p && ((dropMid t1).map (·.1)).contains p) &&
+  (tails.flatMap pureDef).all (fun q => !(fs.map (·.2)).contains q && !(pre'.flatMap pureArgs).contains q)
+
+/-- the rewritten window for a loop with carried values (`A` = alias environment in front of the loop) -/
+def rotWindowC (keep ghost : Bool) (params0 params1 : List (Var × Var)) (nh nt : Nat) (a : AccId) (fs : List (Field × Var))
+    (pre after : List Stmt) (lb ub st iv : Var) (fresh : Nat) (r : Block) : Block :=
+  let chain := inputChain (pre.drop nh).reverse (fs.map (·.2))
+  let mk := fun (x : List (Field × Var)) => if ghost then Stmt.ghost a x else Stmt.setup a x
+  let c0 := cloneChain chain ((iv, lb) :: params0) fresh
+  let s0 := mk (fs.map fun p => (p.1, renameVar c0.2.1 p.2))
+  let next := c0.2.2
+  let c1 := cloneChain chain ((iv, next) :: params1) (next + 1)
+  let s1 := mk (fs.map fun p => (p.1, renameVar c1.2.1 p.2))
+  let orig := if keep then [Stmt.setup a fs] else []
+  let body' := Block.ofList (pre ++ (orig ++ (after.take (after.length - nt) ++
+    (((Stmt.pure next .add [iv, st] :: c1.1) ++ [s1]) ++ after.drop (after.length - nt)))))
+  (Block.ofList ((c0.1 ++ [s0]) ++ [Stmt.forS lb ub st iv body'])).append r
+
+def rotGuardC (chk : Bool) (A : List (Var × Var)) (a : AccId) (fs : List (Field × Var)) (pre after : List Stmt)
+    (lb ub st iv : Var) (fresh : Nat) : Bool :=
+  let heads := pre.take (nHeads pre after)
+  let tails := after.drop (after.length - nTails pre after)
+  (params0T A heads).length == heads.length && (params1T heads tails).length == heads.length &&
+  rotGuard chk a fs pre after lb ub st iv fresh && (!chk || carrySide A fs pre after iv fresh)
+
+def loopOverlapC (keep ghost chk : Bool) (j fresh : Nat) (A : List (Var × Var)) (_F : Facts) : Block → Nat → Option Block
+  | .cons s r, 0 =>
+    match s with
+    | .forS lb ub st iv body =>
+      match body.toList.drop j with
+      | .setup a fs :: after =>
+        if rotGuardC chk A a fs (body.toList.take j) after lb ub st iv fresh then
+          some (rotWindowC keep ghost
+            (dropMid (params0T A ((body.toList.take j).take (nHeads (body.toList.take j) after))))
+            (dropMid (params1T ((body.toList.take j).take (nHeads (body.toList.take j) after))
+              (after.drop (after.length - nTails (body.toList.take j) after))))
+            (nHeads (body.toList.take j) after) (nTails (body.toList.take j) after)
+            a fs (body.toList.take j) after lb ub st iv fresh r)
+        else none
+      | _ => none
+    | _ => none
+  | .cons s r, i+1 => (loopOverlapC keep ghost chk j fresh (aliasStep s A) _F r i).map fun r' => .cons s r'
+  | .nil, _ => none
+
+def applyLoopOverlapC (path : List Nat) (j fresh : Nat) (b : Block) : Option Block :=
+  rewriteB (loopOverlapC false false false j fresh []) path b noFacts
+
+/-- the variants used by the proof (`chk = true`) -/
+def applyLoopOverlapCGen (keep ghost : Bool) (path : List Nat) (j fresh : Nat) (b : Block) : Option Block :=
+  rewriteB (loopOverlapC keep ghost true j fresh []) path b noFacts
+
 def loopOverlapRw (j fresh : Nat) := loopOverlapGen false false false j fresh
 
 def applyLoopOverlap (path : List Nat) (j fresh : Nat) (b : Block) : Option Block :=
